@@ -108,7 +108,7 @@ func TestVerifEngineChain(t *testing.T) {
 	stat.SetReporter(nil)
 	bound := 2
 	if vrt.Thorough() {
-		bound = 3
+		bound = 4
 	}
 	type sc struct {
 		steps []string
